@@ -9,9 +9,12 @@ ID="$1"; V="$2"; shift 2
 # path-depends on it) instead of /repo and /verif themselves; used for triage while /verif is being edited.
 REPO="${EVAL_REPO:-/repo}"
 VERIF="${EVAL_VERIF:-/verif}"
-W=/tmp/seed/$ID
+# SEED_ROOT: where the sub-agents' worktrees are (/tmp/seed = first wave, /tmp/seed2 = second wave);
+# OUT_VARIANT: name under /verif/seeded (second wave: A -> C, B -> D)
+W=${SEED_ROOT:-/tmp/seed}/$ID
 S=$W/seeded/$V
-OUT=/verif/seeded/$ID-$V
+OV=${OUT_VARIANT:-$V}
+OUT=/verif/seeded/$ID-$OV
 [ -f "$S/patch.diff" ] || { echo "no $S/patch.diff"; exit 2; }
 mkdir -p "$OUT"
 export CARGO_NET_OFFLINE=true
@@ -59,7 +62,7 @@ done
 git checkout -q -- .
 # restore evidence files of the unchanged tree (they were rewritten by runs against the seeded change)
 [ "$VERIF" = /verif ] && (cd /verif && git checkout -q -- evidence)
-python3 - "$OUT" "$ID" "$V" "$CLEAN_RC" "$BUG_RC" "$BASE" "$FIRED" "$ERR" "$CHECKS" "$REPO" <<'PY'
+python3 - "$OUT" "$ID" "$OV" "$CLEAN_RC" "$BUG_RC" "$BASE" "$FIRED" "$ERR" "$CHECKS" "$REPO" <<'PY'
 import json,sys,os
 out,idp,v,c,b,base,fired,err,checks,repo=sys.argv[1:]
 am={}
